@@ -16,6 +16,8 @@
 //   blocked in cv.wait           (R_CV_BLOCKED; enabled iff notified and the mutex is free)
 //   before notify_one/notify_all (R_PRE_NOTIFY)
 //   at thread start              (R_START)
+//   right after creating a thread (R_AFTER_SPAWN; the creator is still inside the std::thread constructor,
+//                                 the new thread may already run)
 //   before join                  (R_JOIN;       enabled iff the target has finished)
 //   at explicit harness points   (R_POINT)
 // notify_one wakes the waiter the controller chose (default: the longest waiting); spurious
@@ -29,10 +31,10 @@ using real_cv = std::condition_variable;
 using real_thread = std::thread;
 using real_ulock = std::unique_lock<std::mutex>;
 
-enum Reason { R_NEW, R_RUNNING, R_START, R_WANT_MUTEX, R_CV_ENTRY, R_CV_BLOCKED, R_PRE_NOTIFY, R_JOIN, R_POINT, R_FINISHED };
+enum Reason { R_NEW, R_RUNNING, R_START, R_WANT_MUTEX, R_CV_ENTRY, R_CV_BLOCKED, R_PRE_NOTIFY, R_JOIN, R_POINT, R_FINISHED, R_AFTER_SPAWN };
 
 inline const char *reasonName(Reason r) {
-    static const char *n[] = {"new", "running", "start", "want-mutex", "cv-entry", "cv-blocked", "pre-notify", "join", "point", "finished"};
+    static const char *n[] = {"new", "running", "start", "want-mutex", "cv-entry", "cv-blocked", "pre-notify", "join", "point", "finished", "after-spawn"};
     return n[r];
 }
 
@@ -196,6 +198,7 @@ public:
             v->reason = R_FINISHED;
             Sched::get().controller.give();
         });
+        yield(R_AFTER_SPAWN, vt);
     }
     ~thread() {
         if (vt && !joined) { fprintf(stderr, "vsched: joinable thread destroyed\n"); std::terminate(); }
@@ -217,7 +220,7 @@ public:
 // ---- controller side --------------------------------------------------------------------
 inline bool enabled(const VThread *t) {
     switch (t->reason) {
-    case R_START: case R_CV_ENTRY: case R_PRE_NOTIFY: case R_POINT: return true;
+    case R_START: case R_CV_ENTRY: case R_PRE_NOTIFY: case R_POINT: case R_AFTER_SPAWN: return true;
     case R_WANT_MUTEX: return !static_cast<const mutex *>(t->obj)->held;
     case R_CV_BLOCKED: {
         auto *cv = static_cast<const condition_variable *>(t->obj);
